@@ -601,9 +601,76 @@ pub type Callback = Arc<dyn Fn(&str, &[u64], usize) + Send + Sync>;
 /// events of the harness in one totally ordered list.  The position in the list is the
 /// sequence number; it is assigned while holding the recorder mutex, i.e. still inside the
 /// critical section that made the reported change visible.
+pub struct DurableState {
+    pub db_dir: PathBuf,
+    pub shadow: PathBuf,
+    pub log_synced: HashMap<String, u64>,
+}
+
+impl DurableState {
+    /// start tracking a directory whose present content is on stable storage
+    pub fn new(db_dir: PathBuf, shadow: PathBuf) -> DurableState {
+        let mut log_synced = HashMap::new();
+        if let Ok(rd) = std::fs::read_dir(&db_dir) {
+            for e in rd.flatten() {
+                let name = e.file_name().to_string_lossy().to_string();
+                if name.starts_with("log") {
+                    log_synced.insert(name, e.metadata().map(|m| m.len()).unwrap_or(0));
+                }
+            }
+        }
+        DurableState { db_dir, shadow, log_synced }
+    }
+    /// Turn the process-crash image `img` (a copy of the directory) into what a power loss may leave: every
+    /// table file either as it is or as it was at its last msync, every log file cut somewhere between its
+    /// synced length and its current length.  `pick(n)` draws a number below n.
+    pub fn apply_power_loss(&self, img: &Path, pick: &mut dyn FnMut(u64) -> u64) -> std::io::Result<u64> {
+        let mut changed = 0;
+        for e in std::fs::read_dir(img)? {
+            let e = e?;
+            let name = e.file_name().to_string_lossy().to_string();
+            if name.starts_with("log") {
+                let cur = e.metadata()?.len();
+                // (a log file that was never synced since it appeared may be gone altogether)
+                let synced = self.log_synced.get(&name).copied().unwrap_or(0).min(cur);
+                let keep = match pick(3) {
+                    0 => synced,
+                    1 => cur,
+                    _ => synced + pick(cur - synced + 1),
+                };
+                if keep < cur {
+                    std::fs::OpenOptions::new().write(true).open(e.path())?.set_len(keep)?;
+                    changed += 1;
+                }
+                if std::env::var("PDBH_DEBUG").is_ok() {
+                    eprintln!("powerloss: {name} cur={cur} synced={synced} keep={keep}");
+                }
+            } else if name.starts_with("table_") || name.starts_with("index_") || name.starts_with("refcount_") {
+                let sh = self.shadow.join(&name);
+                if sh.exists() && pick(2) == 0 {
+                    let differs = std::fs::read(&sh).ok() != std::fs::read(e.path()).ok();
+                    copy_sparse(&sh, &e.path())?;
+                    if differs {
+                        changed += 1;
+                    }
+                    if std::env::var("PDBH_DEBUG").is_ok() {
+                        eprintln!("powerloss: {name} <- last msynced version (differs: {differs})");
+                    }
+                } else if std::env::var("PDBH_DEBUG").is_ok() {
+                    eprintln!("powerloss: {name} kept (shadow exists: {})", sh.exists());
+                }
+            }
+        }
+        Ok(changed)
+    }
+}
+
 pub struct Recorder {
     /// table files stored to since their last msync (only to drop no-op msync events)
     dirty: Mutex<std::collections::HashSet<String>>,
+    /// power-loss images: the database directory being observed, a shadow directory holding every table /
+    /// index / ref-count file as it was at its last successful msync, and the synced length of every log file
+    pub durable: Mutex<Option<DurableState>>,
     pub events: Mutex<Vec<J>>,
     pub callback: Mutex<Option<Callback>>,
     pub enabled: std::sync::atomic::AtomicBool,
@@ -613,6 +680,7 @@ impl Recorder {
     pub fn install() -> Arc<Recorder> {
         let r = Arc::new(Recorder {
             dirty: Mutex::new(Default::default()),
+            durable: Mutex::new(None),
             events: Mutex::new(Vec::new()),
             callback: Mutex::new(None),
             enabled: std::sync::atomic::AtomicBool::new(true),
@@ -636,6 +704,22 @@ impl Recorder {
         let watched = name.starts_with("log") || name.starts_with("table_") || name.starts_with("index_") || name.starts_with("refcount_");
         if !watched {
             return
+        }
+        // what is on stable storage now
+        if ret == 0 {
+            let mut g = self.durable.lock().unwrap();
+            if let Some(d) = g.as_mut() {
+                if call == "msync" && !name.starts_with("log") {
+                    let _ = crate::sys::quiet(|| copy_sparse(&d.db_dir.join(name), &d.shadow.join(name)));
+                } else if (call == "fdatasync" || call == "fsync") && name.starts_with("log") {
+                    if let Ok(m) = std::fs::metadata(d.db_dir.join(name)) {
+                        d.log_synced.insert(name.to_string(), m.len());
+                    }
+                } else if call == "unlink" {
+                    d.log_synced.remove(name);
+                    let _ = crate::sys::quiet(|| std::fs::remove_file(d.shadow.join(name)));
+                }
+            }
         }
         // an msync of a file with no store since its last msync changes nothing in the trace spec
         // (the dirty set): leave it out, a clean-up pass msyncs every table of every column
